@@ -33,8 +33,8 @@ Definition n_inaccessible : name := [105;110;97;99;99;101;115;115;105;98;108;101
 
 (* ------------------------------------------------------------------ quirks *)
 Record quirks := {
-  q_int_any_number : bool;     (* traverseNamedTypeNode "Int": any JSON number passes *)
-  q_id_any_number : bool;      (* traverseNamedTypeNode "ID": any JSON number passes *)
+  q_int_any_number : bool;     (* traverseNamedTypeNode "Int": any JSON number passes (off: isInt32, an integer token within 32 bits) *)
+  q_id_any_number : bool;      (* traverseNamedTypeNode "ID": any JSON number passes (off: isInteger, no fraction / exponent) *)
   q_upload_exempt : bool;      (* Upload is exempt from the non-null checks *)
   q_field_null_default : bool; (* traverseFieldDefinitionType: an explicit null for a T! field passes when the field has a default *)
   q_elem_null_default : bool;  (* ... and so does a null ELEMENT below that field, at any list depth *)
@@ -47,10 +47,11 @@ Record quirks := {
 (* the code before the repairs of /repo recorded as "fixed:" in KNOWN_FINDINGS.txt: every deviation present *)
 Definition old_quirks : quirks := Build_quirks true true true true true true true true true.
 (* THE CODE AS IT IS.  Repaired since (fixed: field-null-uses-field-default, list-element-null-uses-field-default,
-   inject-defaults-index-drift, inject-defaults-enum-ref, inject-defaults-string-reparsed, remap-name-collision-upload):
-   those flags are off. *)
+   inject-defaults-index-drift, inject-defaults-enum-ref, inject-defaults-string-reparsed, remap-name-collision-upload,
+   int-accepts-non-int32, id-accepts-non-integer-number): those flags are off.  What remains is the Upload
+   exemption (deliberate: a multipart upload request carries null for the file variables). *)
 Definition go_quirks : quirks :=
-  {| q_int_any_number := true; q_id_any_number := true; q_upload_exempt := true;
+  {| q_int_any_number := false; q_id_any_number := false; q_upload_exempt := true;
      q_field_null_default := false; q_elem_null_default := false;
      q_inject_drift := false; q_inject_kind := false; q_inject_reparse := false;
      q_remap_collision := false |}.
